@@ -43,6 +43,17 @@ def step(cls, k=3, all_followups=False, **sel):
     ms = [sel.pop(f"m{i}") for i in range(k)]
     mapping = {i: img(i, ms[i]) for i in range(k) if ms[i] != 0}
     spec = fam.decode(cname, k, sel)
+    # the mapping has to be injective on every identifier the graph mentions, also on identifiers that descriptors name although they are not atoms
+    # (decoration ds=10): renaming atom 0 onto such an identifier merges two identifiers - undefined, outside the property
+    mentioned = {a for a, _, _ in spec["atoms"]}
+    for d in list(spec.get("astereo", [])) + list(spec.get("bstereo", [])):
+        mentioned |= {x for x in d[1] if x is not None}
+    for ch in list(spec.get("achg", [])) + list(spec.get("bchg", [])):
+        for d in ch.values():
+            mentioned |= {x for x in d[1] if x is not None}
+    images = [mapping.get(x, x) for x in mentioned]
+    if len(set(images)) != len(images):
+        return None
     model = gl.model_from_spec(spec)
     expected = gl.model_from_spec(spec)
     expected.relabel(mapping)
